@@ -282,6 +282,7 @@ class PathAnalysis(flow.Analysis):
 
     track_cancel = False  # add a `Cancelled` edge at every await
     exc_after_events = False  # an exception raised by a statement carries the events of the calls it made
+    mark_handlers = False  # record an event `caught:<handler classes>` when an except body is entered
     fallible = True  # opaque calls may raise `Exception*`
     prune = True  # drop a branch whose complementary literal already holds
 
@@ -439,6 +440,11 @@ class PathAnalysis(flow.Analysis):
         if isinstance(stmt, (ast.Expr, ast.Delete)):
             return [self._events(state, stmt)]
         return [state]
+
+    def enter_handler(self, state, handler, tag, node):
+        if self.mark_handlers:
+            state = state.add_event("caught:" + "/".join(self.handler_names(handler)))
+        return self.simple(state, handler)
 
     def exc_state(self, state, node):
         if self.exc_after_events:
